@@ -54,7 +54,8 @@ func nilErrReturn(s *an.State, ins ssa.Instruction) bool {
 	return s.KnownNilErr(s.RetVal(ret, -1))
 }
 
-func c01(c *an.Check) {
+// signedMsgCore decides the signed-message verifier itself; C19, C20 and C27 build on it and re-decide it.
+func signedMsgCore(c *an.Check) {
 	p := c.P
 	eav := p.Func("peer", "SignedMsg", "ExtractAndVerify")
 	// R1: success only through all five gates.
@@ -127,6 +128,10 @@ func c01(c *an.Check) {
 
 	sigVerifyWithPublicGates(c)
 	sigValidateGates(c)
+}
+
+func c01(c *an.Check) {
+	signedMsgCore(c)
 	// the claimed sender is decoded exactly (no trailing or missing bytes): shared with C10
 	peerIDDecodeObligations(c)
 }
